@@ -181,4 +181,98 @@ theorem inv_start_close {ms : List M} {k : Nat} {done : List Ev} {s s' : St} {p 
       · right
         exact ⟨p, hp, by rw [hb, hc], (hstartmem p).mpr (Or.inr rfl), by rw [hb, hc]⟩
 
+/-- abstract form of an end event's effect -/
+theorem inv_end_close {ms : List M} {k : Nat} {done : List Ev} {s s' : St} {p : Nat}
+    (hI : Inv ms k done s) (hp : p < ms.length) (hst : startEv ms p ∈ done) (hnot : endEv ms k p ∉ done)
+    (h1 : s'.dp.length = 2 * ms.length) (h2 : ∀ q, q ≠ p → cellAt s' q = cellAt s q)
+    (h3 : (cellAt s' p).1 = F ms k p) (h4 : PtrOk ms k done (cellAt s' p) p)
+    (h5 : s'.tree = Model.Fenwick.set maxNN (0, 0) s.tree ((mAt ms p).2 + k) (F ms k p, p))
+    (h6 : (s'.best = s.best ∧ cellAt s' p = cellAt s p) ∨ s'.best = maxNI s.best ((cellAt s' p).1, (p : Int)))
+    (h7 : (cellAt s p).1 ≤ (cellAt s' p).1) :
+    Inv ms k (done ++ [endEv ms k p]) s' := by
+  have hsub : ∀ e, e ∈ done → e ∈ done ++ [endEv ms k p] := fun e he => List.mem_append_left _ he
+  have hstartmem : ∀ q, (startEv ms q ∈ done ++ [endEv ms k p] ↔ startEv ms q ∈ done) := by
+    intro q
+    simp only [List.mem_append, List.mem_singleton]
+    constructor
+    · rintro (h | h)
+      · exact h
+      · exact absurd h.symm (endEv_ne_startEv hp)
+    · intro h; exact Or.inl h
+  have hendmem : ∀ q, (endEv ms k q ∈ done ++ [endEv ms k p] ↔ endEv ms k q ∈ done ∨ q = p) := by
+    intro q
+    simp only [List.mem_append, List.mem_singleton]
+    constructor
+    · rintro (h | h)
+      · exact Or.inl h
+      · exact Or.inr (endEv_inj h)
+    · rintro (h | h)
+      · exact Or.inl h
+      · right; rw [h]
+  have hmono : s.best.1 ≤ s'.best.1 := by
+    rcases h6 with ⟨h, _⟩ | h
+    · rw [h]; exact Nat.le_refl _
+    · rw [h, maxNI_fst]; omega
+  refine ⟨h1, ?_, ?_, ?_, ?_, ?_, ?_, ?_⟩
+  · obtain ⟨ups, ht, hm⟩ := hI.tree
+    refine ⟨ups ++ [((mAt ms p).2 + k, (F ms k p, p))], by rw [run_snoc, h5, ht], ?_⟩
+    intro u
+    rw [List.mem_append, List.mem_singleton, hm u]
+    constructor
+    · rintro (⟨q, hq, he, hu⟩ | hu)
+      · exact ⟨q, hq, (hendmem q).mpr (Or.inl he), hu⟩
+      · exact ⟨p, hp, (hendmem p).mpr (Or.inr rfl), hu⟩
+    · rintro ⟨q, hq, he, hu⟩
+      rcases (hendmem q).mp he with h | h
+      · exact Or.inl ⟨q, hq, h, hu⟩
+      · subst h; exact Or.inr hu
+  · intro q hq he
+    by_cases hqp : q = p
+    · subst hqp; exact h3
+    · rw [h2 q hqp]
+      rcases (hendmem q).mp he with h | h
+      · exact hI.ended q hq h
+      · exact absurd h hqp
+  · intro q hq hs hne
+    have hqp : q ≠ p := by intro e; subst e; exact hne ((hendmem q).mpr (Or.inr rfl))
+    rw [h2 q hqp]
+    exact hI.started q hq ((hstartmem q).mp hs) (fun h' => hne ((hendmem q).mpr (Or.inl h')))
+  · intro q hq hs
+    by_cases hqp : q = p
+    · subst hqp; exact h4.mono hsub
+    · rw [h2 q hqp]; exact (hI.ptr q hq ((hstartmem q).mp hs)).mono hsub
+  · have := hI.best_ge; omega
+  · intro q hq hs
+    by_cases hqp : q = p
+    · subst hqp
+      rcases h6 with ⟨hb, hc⟩ | h
+      · rw [hb, hc]; exact hI.best_ub q hq hst
+      · rw [h, maxNI_fst]; simp only; omega
+    · rw [h2 q hqp]
+      have := hI.best_ub q hq ((hstartmem q).mp hs); omega
+  · have hold : s'.best = s.best → (s'.best = (k, 0) ∨
+        ∃ p0, p0 < ms.length ∧ s'.best.2 = (p0 : Int) ∧ startEv ms p0 ∈ done ++ [endEv ms k p] ∧
+          s'.best.1 = (cellAt s' p0).1) := by
+      intro hb
+      rcases hI.best_at with h | ⟨p0, hp0, hb2, hs0, hb1⟩
+      · left; rw [hb]; exact h
+      · right
+        refine ⟨p0, hp0, by rw [hb]; exact hb2, hsub _ hs0, ?_⟩
+        by_cases hne : p0 = p
+        · subst hne
+          -- the kept best refers to the cell that has just been raised: both bounds meet
+          have hub : (cellAt s' p0).1 ≤ s'.best.1 := by
+            rcases h6 with ⟨hb', hc⟩ | h
+            · rw [hb', hc]; exact hI.best_ub p0 hp0 hst
+            · rw [h, maxNI_fst]; simp only; omega
+          rw [hb] at hub ⊢
+          omega
+        · rw [hb, h2 p0 hne]; exact hb1
+    rcases h6 with ⟨hb, _⟩ | hb
+    · exact hold hb
+    · rcases maxNI_cases s.best ((cellAt s' p).1, (p : Int)) with hc | hc
+      · exact hold (by rw [hb, hc])
+      · right
+        exact ⟨p, hp, by rw [hb, hc], (hstartmem p).mpr hst, by rw [hb, hc]⟩
+
 end RbV.Lemmas.Lcskpp
